@@ -707,6 +707,19 @@ def bash_feature(nd):
     return dt_info(nd['dt'])[0] == 'str' and nd['value'] is not None and (has_dquote(nd) or (nd['shape'] is not None and len(nd['shape']) == 1))
 
 
+def bash_chaotic(nd, export):
+    """the defective line cannot be modelled on its own: unterminated quote, or words left over that bash runs as a
+    command / exports as further names"""
+    if not bash_feature(nd):
+        return False
+    if bash_twin(nd, export) in (None, 'unset'):
+        return True
+    if not nd['shape']:
+        arr, words = bash_words('"' + nd['value'] + '"')
+        return words is None or len(words) > 1
+    return False
+
+
 def bash_keys(nd):
     keys = []
     if has_dquote(nd):
@@ -948,22 +961,38 @@ def compile_break_key(be, nd, form, msgs):
 
 
 def classify_compile_error(rd, res, expected, text):
+    """blamed symbols that a recorded defect explains are reported under its key and removed; unexplained ones are
+    reported only in a round without explained ones (an earlier broken line can derail the following lines, the next
+    round judges them again)"""
     be = rd.be
     lines = text.split('\n')
+    decl = res.get('decl_lines') or {}
     if not res['blamed']:
         rd.new('does-not-compile', None, dict(message=(res['unattributed'] or [res['message']])[0][-400:], exported=text[:300]))
         return rd
+    explained, unexplained = [], []
     for name, msgs in res['blamed'].items():
         rel, nd = expected[name]
-        form = sym_form(be, rd.opt, rel)
-        key = compile_break_key(be, nd, form, msgs)
-        ln = (res.get('decl_lines') or {}).get(name)
+        key = compile_break_key(be, nd, sym_form(be, rd.opt, rel), msgs)
+        ln = decl.get(name)
         line = lines[ln - 1] if ln else ''
-        if key:
+        (explained if key else unexplained).append((key, nd, line, msgs))
+    if be == 'rust':
+        # a Rust string literal may span lines: an odd number of quotes shifts the error to a later line
+        errlines = [int(m.group(1)) for msgs in res['blamed'].values() for x in msgs for m in [re.match(r'^config\.rs:(\d+):', x)] if m]
+        done = {nd['path'] for _, nd, _, _ in explained}
+        for name, (rel, nd) in expected.items():
+            if has_dquote(nd) and nd['path'] not in done and decl.get(name) and any(l >= decl[name] for l in errlines):
+                explained.append(('unescaped-double-quote', nd, lines[decl[name] - 1], ['error at or after this line: ' + res['message'][:160]]))
+    if explained:
+        for key, nd, line, msgs in explained:
             rd.known(key, nd, dict(exported_line=line[:200], compiler=msgs[0][:200], expected=brief(nd['value'])))
-        else:
+            rd.offenders.add(nd['path'])
+        rd.count('unexplained_compile_errors_deferred', len(unexplained))
+    else:
+        for key, nd, line, msgs in unexplained:
             rd.new('does-not-compile', nd, dict(exported_line=line[:200], compiler=msgs[:2], expected=brief(nd['value']), dtype=nd['dt']))
-        rd.offenders.add(nd['path'])
+            rd.offenders.add(nd['path'])
     rd.again = True
     return rd
 
@@ -972,29 +1001,33 @@ def classify_compile_error(rd, res, expected, text):
 
 def compare_all(rd, res, expected, text, first):
     be, opt = rd.be, rd.opt
-    chaos = be == 'bash' and any(bash_feature(nd) for _, nd in expected.values())
+    exportflag = opt.get('export', True)
+    chaotic = {nd['path'] for _, nd in expected.values() if be == 'bash' and bash_chaotic(nd, exportflag)}
     defined = res['defined']
     deferred = []
     for name, (rel, nd) in expected.items():
         rec = res['symbols'].get(name)
-        k, bits, uns = dt_info(nd['dt'])
         isnone = nd['value'] is None
+        before = len(rd.devs)
+        if nd['path'] in chaotic:
+            # judged loosely: anything but the expected read-back is the recorded defect of this very line
+            ok = rec is not None and (rec['shape'] or None) == (nd['shape'] or None) and \
+                values_equal('str', None, rec['values'], flatten(nd['value']), be)
+            if rec is not None:
+                rd.count('symbols_compared:' + be)
+            if not ok:
+                for key in bash_keys(nd):
+                    rd.known(key, nd, dict(expected=brief(nd['value']), read_back=brief(rec['values']) if rec else 'variable not set'))
+            continue
         if rec is None:
             if isnone and (be == 'toml' or be in COMPILED):
                 rd.count('none_omitted_accepted')
                 continue
-            if be == 'bash' and bash_feature(nd) and bash_twin(nd, opt.get('export', True)) in ('unset', None):
-                for key in bash_keys(nd):
-                    rd.known(key, nd, dict(expected=brief(nd['value']), read_back='variable not set'))
-                rd.offenders.add(nd['path'])
-                continue
-            d = dev(be + ':symbol-missing', dict(symbol=nd['path'], name=name, defined=(defined or [])[:12]))
-            (deferred if (chaos and not bash_feature(nd)) else rd.devs).append(d)
-            continue
-        rd.count('symbols_compared:' + be)
-        before = len(rd.devs)
-        compare_symbol(rd, name, rel, nd, rec)
-        if chaos and not bash_feature(nd) and len(rd.devs) > before:
+            rd.new('symbol-missing', nd, dict(name=name, defined=(defined or [])[:12]))
+        else:
+            rd.count('symbols_compared:' + be)
+            compare_symbol(rd, name, rel, nd, rec)
+        if chaotic and any(not d.get('known') for d in rd.devs[before:]):
             deferred += rd.devs[before:]
             del rd.devs[before:]
     # exported set == selected set
@@ -1002,19 +1035,18 @@ def compare_all(rd, res, expected, text, first):
     if defined is not None:
         rd.count('selection_sets_compared')
         extra = [n for n in defined if n not in expected]
-        if extra and not chaos:
+        if extra and not chaotic:
             low = {n.lower(): n for n in expected}
             if any(x.lower() in low or mapped(x) in expected for x in extra):
                 rd.new('name-mapping-differs', None, dict(exported=extra[:6], expected=sorted(expected)[:6], rename=opt.get('rename', True)))
             else:
                 rd.new('exports-unselected-symbol', None, dict(extra=extra[:8], selected=sorted(expected)[:12],
                                                                query=opt.get('query'), tags=opt.get('tags')))
-    if chaos and (deferred or extra):
-        # a file with unescaped quotes can derail bash for other lines too: the deviations seen on symbols without
-        # quotes are not judged here; the rest is re-checked strictly without the quoted strings
-        for _, nd in expected.values():
-            if bash_feature(nd):
-                rd.offenders.add(nd['path'])
+    if chaotic and (deferred or extra):
+        # a line with unbalanced quotes / left-over words derails bash for other lines too: unexplained deviations
+        # on the other symbols are not judged here; they are re-checked strictly without the derailing strings
+        rd.offenders |= chaotic
+        rd.count('bash_deviations_deferred', len(deferred))
         rd.again = True
 
 
@@ -1122,15 +1154,7 @@ def compare_symbol(rd, name, rel, nd, rec):
         if (obs_shape or None) == (tshape or None) and values_equal(k, tbits, obs, tflat, be):
             for key in keys:
                 rd.known(key, nd, info)
-            if be == 'bash':
-                rd.offenders.add(nd['path'])
             return
-    if be == 'bash' and bash_feature(nd) and bash_twin(nd, opt.get('export', True)) is None:
-        # unterminated quote: bash swallows following lines, the outcome is not modelled element by element
-        for key in bash_keys(nd):
-            rd.known(key, nd, info)
-        rd.offenders.add(nd['path'])
-        return
     if (obs_shape or None) != (exp_shape or None):
         rd.new('shape-differs', nd, info)
     elif sorted(map(repr, obs)) == sorted(map(repr, exp_flat)) or (k != 'str' and len(obs) == len(exp_flat) and
